@@ -174,6 +174,12 @@ def run_ro(case, out):
         frozen = storeops.Model()
         pre = [op for op in storeops.gen_history(rng, 25) if op[0] != "forget_all"]
         pre += [["memoize", rng.randrange(3), rng.randrange(3), rng.choice(storeops.VALKEYS), None] for _ in range(3)]
+        # ... and one call gets metadata stored next to its data object and is then memoized again with another result
+        # (what the read-only store is asked about that key later must not make it tidy anything up)
+        sf, sa = rng.randrange(3), rng.randrange(3)
+        stale_meta = [["memoize", sf, sa, "u%d%d" % (sf, sa), None], ["wmetad", sf, sa, "log", "w0"],
+                      ["memoize", sf, sa, rng.choice(["s0", "none", "k3"]), None]]
+        pre += stale_meta
         for op in pre:
             before = dict(frozen.d)
             frozen.apply(op)
@@ -190,6 +196,8 @@ def run_ro(case, out):
             if live:
                 f, a = rng.choice(live)
                 ops.insert(rng.randrange(len(ops)), ["wmetad", f, a, "log", "m%d" % rng.randrange(3)])
+        for _ in range(2):
+            ops.insert(rng.randrange(len(ops)), ["rmeta", sf, sa, "log"])
         audit.start()
         flags = drive_ro(b, refs, vals, frozen, ops, out, "variant %s%s" % (VARIANTS[case["variant"]], ", damaged store" if damaged else ""),
                          judge=not damaged)
